@@ -13,30 +13,26 @@ theorem apply_congr_nonslide (basis : Array W) (p : Pos) (m1 m2 : Move)
   have tc := types_cases
   simp only [Move.isSlide, decide_eq_false_iff_not] at hns
   have hlt : m2.type < 5 := by rw [← ht]; omega
-  unfold Pos.apply
-  rw [hx, hy, ht]
+  have place : ∀ k, m2.type = placeCode k → p.apply basis m1 = p.apply basis m2 := by
+    intro k h2
+    rw [apply_place_unfold basis p m1 k (by rw [ht]; exact h2), apply_place_unfold basis p m2 k h2, hx, hy]
+  by_cases t2 : m2.type = Facts.mtPlaceFlat
+  · exact place .flat t2
+  by_cases t3 : m2.type = Facts.mtPlaceStanding
+  · exact place .standing t3
+  by_cases t4 : m2.type = Facts.mtPlaceCapstone
+  · exact place .capstone t4
+  have e2 : (m2.type == Facts.mtPlaceFlat) = false := by simpa using t2
+  have e3 : (m2.type == Facts.mtPlaceStanding) = false := by simpa using t3
+  have e4 : (m2.type == Facts.mtPlaceCapstone) = false := by simpa using t4
   have e5 : (m2.type == Facts.mtSlideLeft) = false := by simp; omega
   have e6 : (m2.type == Facts.mtSlideRight) = false := by simp; omega
   have e7 : (m2.type == Facts.mtSlideUp) = false := by simp; omega
   have e8 : (m2.type == Facts.mtSlideDown) = false := by simp; omega
-  by_cases t1 : m2.type = Facts.mtPass
-  · simp only [t1, beq_self_eq_true, if_true]
-  have e1 : (m2.type == Facts.mtPass) = false := by simpa using t1
-  simp only [e1, e5, e6, e7, e8, Bool.false_eq_true, if_false]
-  by_cases t2 : m2.type = Facts.mtPlaceFlat
-  · simp only [t2, beq_self_eq_true, if_true]
-    by_cases hp : p.move < 2 <;> simp only [hp, if_true, if_false] <;> rfl
-  have e2 : (m2.type == Facts.mtPlaceFlat) = false := by simpa using t2
-  by_cases t3 : m2.type = Facts.mtPlaceStanding
-  · simp only [e2, t3, beq_self_eq_true, if_true, Bool.false_eq_true, if_false]
-    by_cases hp : p.move < 2 <;> simp only [hp, if_true, if_false] <;> rfl
-  have e3 : (m2.type == Facts.mtPlaceStanding) = false := by simpa using t3
-  by_cases t4 : m2.type = Facts.mtPlaceCapstone
-  · simp only [e2, e3, t4, beq_self_eq_true, if_true, Bool.false_eq_true, if_false]
-    by_cases hp : p.move < 2 <;> simp only [hp, if_true, if_false] <;> rfl
-  have e4 : (m2.type == Facts.mtPlaceCapstone) = false := by simpa using t4
-  simp only [e2, e3, e4, Bool.false_eq_true, if_false]
-
+  -- pass or an invalid type code: no field of the move but `type` is read
+  unfold Pos.apply dispatch
+  rw [ht]
+  simp only [e2, e3, e4, e5, e6, e7, e8, Bool.false_eq_true, if_false]
 
 /-- "the engine is willing to apply `m`": `Position.Move` returns no error -/
 def accepted (basis : Array W) (p : Pos) (m : Move) : Bool := (p.apply basis m).toBool
